@@ -12,7 +12,7 @@ func init() {
 	register(&PropertyDef{
 		ID: "C14",
 		Explanation: "Panic- and hang-freedom obligations enumerated for every function of the library packages and discharged statically: (R14.2) each index, slice, signed shift and integer division is discharged by a difference-constraint argument from dominating guards, range-loop structure and library contracts (copy, ReadFull, Decode, LastIndex, Split), or is listed in spec/bounds_table.json with a one-line invariant; " +
-			"(R14.1) each explicit panic and (R14.3) each unchecked type assertion is a named table entry whose caller-side guards are re-checked; (R14.4) every loop without a bounded counter consumes input and leaves on a read error; (R14.5) the size and whitespace limits are on the path; (R14.6) armor failures keep their type through the layers above; (R14.10 = R10.2) the passphrase identity refuses a header in which an scrypt stanza has company before it derives any key, so a hostile header costs at most one derivation; (R14.7 = R10.3) scrypt.Key is reached only with a work factor that matched the canonical-decimal pattern, parsed without error and is <= the identity's configured maximum; together with R08.4 (typed armor errors) and R07.4 (nothing on error).",
+			"(R14.1) each explicit panic and (R14.3) each unchecked type assertion is a named table entry whose caller-side guards are re-checked; (R14.4) every loop without a bounded counter consumes input and leaves on a read error; (R14.5) the size and whitespace limits are on the path; (R14.6) armor failures keep their type through the layers above; (R14.10 = R10.2) the passphrase identity refuses a header in which an scrypt stanza has company before it derives any key, so a hostile header costs at most one derivation; (R14.7 = R10.3) scrypt.Key is reached only with a work factor that matched the canonical-decimal pattern, parsed without error and is <= the identity's configured maximum; together with R08.4 (typed armor errors) and R07.4 (nothing on error). Every base64 Decode into a caller-sized buffer in the library carries the DecodedLen precondition (R14.5).",
 		NotDecided:  "nil dereferences beyond the structure checked here; time and memory bounds as quantities; panics inside external libraries.",
 		Assumptions: []string{"library contracts: copy returns <= min(len), io.ReadFull n <= len(buf), base64 Decode n <= len(dst), strings.Split returns at least one element, strings.LastIndex result < len(s)"},
 		Technique:   "static analysis: obligation enumeration over go/ssa with a difference-constraint solver fed by dominance guards, loop structure and contracts; tables for invariants",
